@@ -314,18 +314,24 @@ def coq_eval(engine, prop, cases, obss, workdir, tag="cases"):
     while pending or running:
         while pending and len(running) < NPROC:
             path, idxs = pending.pop(0)
+            # output goes to a file, not a pipe: a long error message (an ill-typed literal is echoed in
+            # full) would fill a pipe nobody reads while polling and block coqc until its timeout
+            outf = open(path + ".out", "w+")
             p = subprocess.Popen(
                 ["timeout", str(COQC_TIMEOUT), "coqc", "-Q", os.path.join(COQ, "theories"), "BT",
                  "-w", "-all", path],
-                cwd=workdir, stdout=subprocess.PIPE, stderr=subprocess.STDOUT, text=True,
+                cwd=workdir, stdout=outf, stderr=subprocess.STDOUT, text=True,
             )
+            p._outf = outf
             running.append((p, path, idxs))
         still = []
         for p, path, idxs in running:
             if p.poll() is None:
                 still.append((p, path, idxs))
                 continue
-            out = p.stdout.read()
+            p._outf.seek(0)
+            out = p._outf.read()
+            p._outf.close()
             if p.returncode != 0:
                 errors.append((path, out[-1500:]))
                 for i in idxs:
